@@ -308,6 +308,17 @@ def replay_tower(res, config="A"):
     if "method" not in ce or "level" not in ce:
         return None
     level, mname = ce["level"], ce["method"]
+    if mname == "square_cyclotomic":
+        # needs elements of the cyclotomic subgroup: map random elements into it natively, then compare the fast squaring with the plain one
+        rng = random.Random(int(os.environ.get("VERIF_SEED", "0")) + 3)
+        for _ in range(4):
+            ahex = "".join("%096x" % rng.randrange(Q) for _ in range(12))
+            c = replay.run(["tower 3 map_to_cyclotomic 0 0 " + ahex], config)[0]
+            fast, plain = replay.run(["tower 3 square_cyclotomic 0 0 " + c, "tower 3 square 0 0 " + c], config)
+            if fast != plain:
+                ce["native_replay"] = {"cyclotomic_element": c[:96] + "...", "square_cyclotomic": fast[:96] + "...", "square": plain[:96] + "..."}
+                return True
+        return False
     in_levels = ce.get("in_levels") or [level]
     alias = ce.get("alias") or []
     power = ce.get("power", 0) or 0
@@ -372,6 +383,12 @@ def main(argv=None):
                                            "src/bls12_381/fq12_cyclotomic.cpp", "src/bls12_381/fq.cpp"], tag="c04")
     prog.demangle_all()
     register(chk, prog, chk.tier == "thorough")
+    sys.path.insert(0, os.path.dirname(os.path.abspath(__file__)))
+    sys.modules.setdefault("c04", sys.modules[__name__])
+    import c04_more
+    import c02
+    c04_more.prog()
+    c04_more.register(chk)
     chk.explanation = ("Every Fq2/Fq6/Fq12 method is executed symbolically from the clang-14 -O1 -fno-inline LLVM IR of the current tree "
                        "with the methods of the levels below replaced by their quotient-ring specification; outputs are compared with "
                        "schoolbook arithmetic in Fq[u]/(u^2+1), Fq2[v]/(v^3-xi), Fq6[w]/(w^2-v) as polynomial identities modulo q decided by z3.")
